@@ -65,6 +65,8 @@ class _LogTap(logging.Handler):
             msg = record.getMessage()
         except Exception:
             msg = str(record.msg)
+        if record.levelno < logging.WARNING:
+            return  # debug tracing switched on for this run: formatted (as a real handler would), not recorded
         exc = None
         if record.exc_info and record.exc_info[1] is not None:
             exc = '%s: %s' % (type(record.exc_info[1]).__name__, record.exc_info[1])
@@ -184,6 +186,11 @@ class World:
         import rsocket.rsocket_client as rc
         import rsocket.lease as rl
         _install_logging()
+        if (self.plan.get('loop') or {}).get('log_debug'):
+            # the application runs the library with frame tracing on (logger at DEBUG): behaviour must not depend on it
+            logging.getLogger('pyrsocket').setLevel(logging.DEBUG)
+            _log_tap.setLevel(logging.DEBUG)
+            self._log_debug = True
         for mod in (rc, rl):
             if not hasattr(mod, 'datetime'):
                 raise HarnessError('clock seam missing: %s.datetime' % mod.__name__)
@@ -258,6 +265,9 @@ class World:
 
     def uninstall(self):
         global _current_world
+        if getattr(self, '_log_debug', False):
+            logging.getLogger('pyrsocket').setLevel(logging.WARNING)
+            _log_tap.setLevel(logging.WARNING)
         for mod, name, old in self._patched:
             setattr(mod, name, old)
         self._patched = []
